@@ -56,6 +56,9 @@ def gen_cases(tier, seed):
         if variant == "wcvp":
             c["p"] = sc.fl(0.9)
         add(c)
+    for _ in range(2 if quick else 10):      # p = 1/2 through the accessor
+        y = gaps(rng, series(rng, 10, "season"), -3000, 0.1)
+        add({"variant": "wcvp", "y": [str(v) for v in y], "nd": "-3000", "grid": [sc.fl(-1.0 + 0.5 * k) for k in range(7)], "robust": False, "api": "accessor", "p": sc.fl(0.5), "dims": ["time", "y", "x"]})
     for nv in (0, 1, 4, 5):       # fewer than 5 valid cells: unchanged, lambda 0
         for variant in ("wcv", "wcvp"):
             y = [-3000] * 9
